@@ -72,6 +72,8 @@ type AnnoOpts struct {
 	Isoforms     bool // allow a second CDS with the same name, outer bounds and strand but another exon junction
 	SamConflicts bool // (SAM form) allow an extra supplementary record whose bases may disagree with the others
 	NoStop       bool // allow CDS features that do not end in a stop codon (partial CDS, polyprotein fragments)
+	AllNQuery    bool // (used by the case builder) one SAM query may have every base replaced by N
+	NoFeatures   bool // now and then an annotation without any coding feature
 	DupOverlap   bool // a shorter second feature with the name, start and frame of an existing one (needs NoStop)
 	QuoteNames   bool // (used by the case builder) a GFF3 feature name may be written with double quotes around it
 	DupNames     bool // allow two single-row CDS that share a gene name, and top-level GFF3 rows without an ID
@@ -221,6 +223,11 @@ func MakeAnnotation(r *fw.Rng, L int, o AnnoOpts) Annotation {
 			copy(ref[3*n-3:3*n], "TAA")
 			an.Feats = append(an.Feats, f)
 		}
+	}
+	if o.NoFeatures && r.Chance(0.04) {
+		// a record that annotates no coding feature at all (a non-coding amplicon, a file with only
+		// source / UTR / gene rows): every position is non-coding
+		an.Feats = nil
 	}
 	an.Ref = string(ref)
 	return an
